@@ -35,7 +35,6 @@ sys.path.insert(0, os.path.dirname(os.path.dirname(os.path.abspath(__file__))))
 from vlib import core, netgen
 sys.path.insert(0, os.path.join(core.VERIF, 'tools'))
 import tr_stamps as TS
-from checks import c01 as C01
 
 PID = 'C04'
 MANIFEST = {
@@ -60,6 +59,43 @@ MANIFEST = {
             'of transfer() on a shorted port (both fixed in /repo during the build).',
     'technique': 'Coq proof (linear algebra over an abstract field, induction over netlists and trees) + in-Coq certificate checking of the probes against the MNA model regenerated from source + load-invariance search oracle',
 }
+
+# (own copies: the C01 helpers are being generalised independently)
+KINDS = {'dc': 'KDc', 's': 'KS', 'ivp': 'KIvp', 'laplace': 'KLaplace', 'transient': 'KTransient', 't': 'KT', 'time': 'KTime'}
+CNAMES = ['RC', 'L', 'V', 'AM', 'I', 'VCVS', 'VCCS', 'CCCS', 'CCVS', 'K', 'TF', 'GY', 'TL', 'TPA', 'TPB', 'TPG', 'TPH',
+          'TPY', 'TPZ', 'TR', 'SPpp', 'SPpm', 'SPppp', 'SPpmm', 'SPppm', 'RV', 'Dummy']
+PNAMES = ['pY', 'pZ', 'pIsc', 'pVoc', 'pArg0', 'pArg1', 'pAlpha', 'pEps', 'pA11', 'pA12', 'pA21', 'pA22',
+          'pY11', 'pY12', 'pY21', 'pY22', 'pZM0', 'pZM1', 'pZL1', 'pZL2', 'pK']
+
+
+def bl(x):
+    return 'true' if x else 'false'
+
+
+def craw_of(e, ids, kindc, owner, eps):
+    """Coq `CRaw` literal (Gen.C04model.craw) for one element of the worker dump, or None if unsupported"""
+    if owner not in CNAMES:
+        return None
+    pr = dict(e['params'])
+    pr['pEps'] = eps
+    arms = ['%s => %s' % (pn, q(pr[pn])) for pn in PNAMES if pr.get(pn) is not None]
+    if not arms:
+        par = '(fun _ => 0%Qc)'
+    elif len(arms) == len(PNAMES):
+        par = '(fun n => match n with %s end)' % ' | '.join(arms)
+    else:
+        par = '(fun n => match n with %s | _ => 0%%Qc end)' % ' | '.join(arms)
+    n = (e['nidx'] + [-1, -1, -1, -1])[:4]
+    cidx = (e.get('cidx') or [-1, -1])
+    ctrl = ids.get(e.get('ctrl'), 0)
+    typ = {'C': 'TyC', 'm': 'TyM'}.get(e['type'], 'TyOtherType')
+    info = '(CI %d %s %s %s %d)' % (ids[e['name']], bl(e['need_branch_current']), bl(e['need_extra_branch_current']),
+                                    bl(e['is_current_controlled']), ctrl)
+    return ('(CRaw c%s %s %s %s (%d) (%d) (%d) (%d) (%d) (%d) %d %d %s %s %s %s %s)' % (
+        owner, info, kindc, typ, n[0], n[1], n[2], n[3], cidx[0], cidx[1],
+        ids.get(e.get('L1'), 0), ids.get(e.get('L2'), 0),
+        bl(e.get('has_ic')), bl(e.get('ctrl_is_vsrc', False)), bl(e['nargs'] > 1), bl(e.get('tp_has_src')), par))
+
 
 KINDTAG = {'dc': 'KDc', 'transient': 'KTransient', 'ivp': 'KIvp', 'none': 'KTransient', 'laplace': 'KLaplace'}
 FOUR = ('E', 'G', 'TF', 'GY', 'TP')
@@ -459,7 +495,7 @@ def fr(x):
 
 
 def raws_of(d, tr, res, eps='0'):
-    kindc = C01.KINDS.get(d['kind'])
+    kindc = KINDS.get(d['kind'])
     if kindc is None:
         return None
     ids = {e['name']: i for i, e in enumerate(d['elements'])}
@@ -471,7 +507,7 @@ def raws_of(d, tr, res, eps='0'):
             if o:
                 owner = o
                 break
-        r = C01.raw_of(e, ids, kindc, owner, eps) if owner else None
+        r = craw_of(e, ids, kindc, owner, eps) if owner else None
         if r is None:
             res.count('unsupported_class_' + str(e['cls']))
             return None
@@ -541,7 +577,7 @@ def build_net_items(ci, case, wr, tr, res):
         nn = len(d['node_list']) - 1
         mm = len(d['unknown_branch_currents'])
         name = 'es_%d_%s' % (ci, tag)
-        defn = 'Definition %s : list raw := [%s].' % (name, ';\n  '.join(raws))
+        defn = 'Definition %s : list craw := [%s].' % (name, ';\n  '.join(raws))
         if p not in d['node_index'] or m not in d['node_index']:
             res.count('net_port_node_missing')
             return items, info
@@ -560,7 +596,7 @@ def build_net_items(ci, case, wr, tr, res):
                 ents.append('(%s, %d, %d, %s)' % (blk, r if r < nn else r - nn, c if c < nn else c - nn, q(A[r][c])))
             ents.append('(%s, %d, 0, %s)' % ('MIs' if r < nn else 'MEs', r if r < nn else r - nn, q(Z[r])))
         items.append(dict(label='%d/entries_%s' % (ci, tag), probe='entries', role='main', defn=defn,
-                          expr='check_entries %s [%s]' % (name, '; '.join(ents))))
+                          expr='c_entries %s [%s]' % (name, '; '.join(ents))))
         res.count('entries_compared', len(ents))
     so, sl = sets['o'], sets['l']
     if pi_eq(so) or pi_eq(sl):
@@ -878,6 +914,16 @@ def run(tier='quick', replay=None):
                 for f in ('C01model.v', 'C01.v', 'C01net.v', 'C04model.v', 'C04.v', 'C04ex.v', 'C04ground.v', 'C04mna.v', 'C04cert.v'):
                     texts[f] = open(os.path.join(core.VERIF, 'coq', 'props', f)).read()
                     w.write(f, texts[f])
+                # the shared C01 files may gain theory dependencies: build whatever LT.* the files of this run import
+                lt = set()
+                for t_ in texts.values():
+                    lt.update(re.findall(r'\bLT\.([A-Za-z0-9_]+)', t_))
+                lt = sorted(n_ for n_ in lt if os.path.exists(os.path.join(core.COQ_THEORY, n_ + '.v')))
+                try:
+                    core.ensure_theory(lt)
+                except RuntimeError as e_:
+                    res.failed_obl.append(('theory', 'coq/theory', str(e_)[-600:]))
+                    res.obligations += 1
                 bad = core.gate_text('generated+props', '\n'.join(texts.values()))
                 if bad:
                     res.failed_obl.append(('gate', 'props', '; '.join(bad)))
